@@ -51,6 +51,7 @@ type Job struct {
 	Random      int   `json:"random"`       // number of random concrete runs (leg C)
 	RandomW     int   `json:"random_w"`
 	Workers     int   `json:"workers"`
+	Light       bool  `json:"light"` // big exhaustive rounds: two host-bit fillings per list instead of three
 }
 
 type Emb struct {
@@ -430,7 +431,11 @@ func replayBeh(idx int, b *Beh, rng *rand.Rand, env *plugEnv) {
 			for i := range pf {
 				rules[i] = pf[i].String()
 			}
-			checkAll("append", orFail(m, err), &e, b, rules, []int{0, 1, 2}, rng, nil)
+			modes := []int{0, 1, 2}
+			if job.Light {
+				modes = []int{0, 1 + pi%2}
+			}
+			checkAll("append", orFail(m, err), &e, b, rules, modes, rng, nil)
 
 			// --- API 2: LoadFromReader (text with comments / blanks) or LoadFromText per line
 			// (all load orders in thorough tier, two per embedding in quick tier)
